@@ -1,6 +1,9 @@
 import TD.C06.Lemmas
 import TD.C06.LemmasPlan
 import TD.C06.LemmasLoad
+import TD.C06.LemmasMulti
+import TD.C06.LemmasReads
+import TD.C06.LemmasX
 
 /-!
 # C06 — LIS log pass frame sets are exact; any sub-selection is a sub-matrix
@@ -358,7 +361,7 @@ shape (any number of channels, samples, bursts, word lengths), every record leng
 `start < stop ≤ n` with any step (and `None`), every earlier frame set: the load succeeds and row `i` of the matrix holds
 exactly the words of all channels of frame `start + i·step`, read from the record bytes.
 
-Exact gap to the full statement:
+Exact gap to the full statement (the first item is closed by `setFrameSet_values_allchannels_partial` below):
 * more than one data record — the per-record block is already proved for an arbitrary position in the matrix
   (`block_exec_all`: any `frInt`, any arithmetic progression of offsets inside the record); missing is the grouping of
   `_retFrameSetMap` (frames → consecutive per-record buffers, `sorted` keeps record order) and the induction over the
@@ -457,5 +460,247 @@ example : ∃ ops, (setFrameSet ⟨dfsrD, ⟨0, dfsrD.chans.map Chan.size⟩, 0,
     [(50, [0, 0] ++ frameD 0 ++ frameD 1 ++ frameD 2)] none (some ⟨0, 3, 2⟩) rfl rfl
     (by intro c hc; simp [dfsrD] at hc; rcases hc with rfl | rfl | rfl <;> decide)
     (by decide) (by decide) (by decide) (by decide) (by decide)).imp (fun _ h => h.1)
+
+/-! ## Sub-selection is a sub-matrix (direct X) — all channels, ANY number of data records
+
+For every direct-X log pass whose data records lie at strictly increasing file positions (any number of records, any
+frames-per-record pattern incl. short last and empty records), channel list `None`, every slice inside the frame
+count (any step, or `None`) and every earlier frame set: the load succeeds and row `i` of the matrix is `frameRow` of
+frame `start + i·step` — the words of all channels read from the record that holds the frame (`locate`, i.e. by
+`rle_lookup` what `RLEType01.tellLrForFrame` finds) at the frame's offset.
+Remaining gap to `setFrameSet_values`: proper channel subsets — `events_cover` proves which bytes are read; missing is
+the labelling of every read event with a contiguous run `(chFrom, chTo)` of the selected channels and the matching
+`setFrameBytes` writes (covered by `setFrameSet_values_witness`, the correspondence run and the oracle). -/
+theorem setFrameSet_values_allchannels_partial
+    (d : Dfsr) (k : Nat) (rle : List Item01) (st : Store) (fsOld : Option FrameSet) (sl : Option Sl)
+    (hrm : d.recMode = 0) (hk : d.chans.length = k + 1) (hok : d.sizesOk)
+    (hR : IncTells (expand rle))
+    (hst : ∀ tn ∈ expand rle, ∃ bs, Store.find st tn.1.toNat = some bs ∧ bs.head? = some d.dataType ∧
+      bs.length = 2 + tn.2 * sumN (d.chans.map Chan.size))
+    (hlt : (slOrAll sl (rle01Total rle)).start < (slOrAll sl (rle01Total rle)).stop)
+    (hstop : (slOrAll sl (rle01Total rle)).stop ≤ rle01Total rle) :
+    ∃ ops, (setFrameSet ⟨d, ⟨0, d.chans.map Chan.size⟩, 0, rle, fsOld⟩ st sl none).2 = .ok ops ∧
+      (setFrameSet ⟨d, ⟨0, d.chans.map Chan.size⟩, 0, rle, fsOld⟩ st sl none).1.frameSet.map (·.frames)
+        = some ((rangeList (slOrAll sl (rle01Total rle)).start (slOrAll sl (rle01Total rle)).stop
+                  (slOrAll sl (rle01Total rle)).step1).map (frameRow d st (expand rle))) := by
+  generalize hS : slOrAll sl (rle01Total rle) = S at hlt hstop
+  obtain ⟨a, b, c0⟩ := S
+  simp only at hlt hstop
+  have hstep : 0 < (Sl.mk a b c0).step1 := by unfold Sl.step1; split <;> omega
+  generalize hc : (Sl.mk a b c0).step1 = c at hstep
+  have hn0 : rle01Total rle ≠ 0 := by omega
+  -- located frames
+  let loc : Nat → Int × Nat := fun f => (locate (expand rle) f).getD (0, 0)
+  have hloc : ∀ f, f < b → locate (expand rle) f = some (loc f) := by
+    intro f hf
+    obtain ⟨r, hr⟩ := locate_lt (expand rle) f (by rw [← expand_total]; omega)
+    simp [loc, hr]
+  have htell : ∀ f ∈ rangeList a b c, rle01Tell rle f = .ok (loc f) := by
+    intro f hf
+    rw [rle01Tell_locate, hloc f (mem_rangeList a b c f hf).2]
+  obtain ⟨hG, hflat⟩ := foldMap_grouped c ((rangeList a b c).map loc) [] ⟨by simp, by simp⟩
+    (chain_of_frames (expand rle) hR c hstep loc a b (fun f _ h2 => hloc f h2))
+    (by cases (rangeList a b c).map loc with
+        | nil => trivial
+        | cons q _ => exact Or.inl rfl)
+  generalize hGdef : foldMap [] ((rangeList a b c).map loc) = G at hG hflat
+  simp only [flat, List.flatMap_nil, List.nil_append] at hflat
+  have hflat' : flat G = (rangeList a b c).map loc := hflat
+  have hmap : retFrameSetMap ⟨d, ⟨0, d.chans.map Chan.size⟩, 0, rle, fsOld⟩ ⟨a, b, c0⟩ = .ok G := by
+    unfold retFrameSetMap
+    simp only [hc]
+    rw [retFrameSetMapAux_fold rle loc _ htell, hGdef]
+    simp only [sortByKey_sorted G hG.1]
+  -- every entry is backed by a record of the store
+  have hent : ∀ e ∈ G, EntryOk d st c e := by
+    intro e he
+    obtain ⟨a', len, hbuf⟩ := hG.2 e he
+    have hmemflat : (e.1, a' + len * c) ∈ flat G := by
+      simp only [flat, List.mem_flatMap, List.mem_map]
+      refine ⟨e, he, a' + len * c, ?_, rfl⟩
+      rw [hbuf, ap]; simp only [List.mem_map, List.mem_range]; exact ⟨len, by omega, rfl⟩
+    rw [hflat'] at hmemflat
+    obtain ⟨f, hf, hlf⟩ := List.mem_map.1 hmemflat
+    have hlocf := hloc f (mem_rangeList a b c f hf).2
+    rw [hlf] at hlocf
+    obtain ⟨n, hmem, hlt'⟩ := locate_mem _ _ _ _ hlocf
+    obtain ⟨bs, h1, h2, h3⟩ := hst (e.1, n) hmem
+    exact ⟨a', len, n, bs, hbuf, h1, h2, h3, hlt'⟩
+  -- the new frame set
+  have hlenR : rangeLen a b c = (rangeList a b c).length := by simp [rangeList]
+  have hany : (List.range d.chans.length).any (fun e => decide (e ≥ d.chans.length)) = false := by
+    rw [List.any_eq_false]; intro e he; simp at he; simp; omega
+  have hnew : FrameSet.new d ⟨a, b, c0⟩ none 0
+      = .ok ⟨List.range d.chans.length, rangeLen a b c,
+          List.replicate (rangeLen a b c) (List.replicate (sumN ((List.range d.chans.length).map (fun e => ((d.chans[e]?).map Chan.numValues).getD 0))) none),
+          [], none⟩ := by
+    unfold FrameSet.new
+    simp only [hrm, hany, hc]
+    simp
+  have hrowsInit : ∀ row ∈ List.replicate (rangeLen a b c) (List.replicate (sumN ((List.range d.chans.length).map (fun e => ((d.chans[e]?).map Chan.numValues).getD 0))) (none : Option Nat)),
+      row.length = sumN (d.chans.map Chan.numValues) := by
+    intro row hm
+    rw [List.eq_of_mem_replicate hm, List.length_replicate]
+    congr 1
+    apply List.ext_getElem
+    · simp
+    · intro i h1 h2; simp at h1; simp [h1]
+  have hsum : (G.map (·.2.length)).sum = rangeLen a b c := by
+    rw [← flat_length, hflat', List.length_map, hlenR]
+  obtain ⟨evs, r', hgen, hex, hfs⟩ := entries_exec_all d st k c ⟨0, d.chans.map Chan.size⟩ rfl hk hok hstep G 0
+    ⟨none, 0, ⟨List.range d.chans.length, rangeLen a b c,
+          List.replicate (rangeLen a b c) (List.replicate (sumN ((List.range d.chans.length).map (fun e => ((d.chans[e]?).map Chan.numValues).getD 0))) none),
+          [], none⟩, []⟩ hent rfl hrowsInit (by simp [hsum])
+  have hnF : rangeLen a b c ≠ 0 := by
+    have := rangeLen_lt a b c hlt hstep; omega
+  have hevs : genFrameSetEvents ⟨d, ⟨0, d.chans.map Chan.size⟩, 0, rle, fsOld⟩ ⟨a, b, c0⟩ (List.range d.chans.length) = .ok evs := by
+    unfold genFrameSetEvents
+    rw [hmap]
+    simp only [hk]; exact hgen
+  unfold setFrameSet
+  simp only [hn0, if_false, hS, hnew, hnF, hevs, hex]
+  refine ⟨_, rfl, ?_⟩
+  simp only [Option.map_some, hfs, Option.some.injEq]
+  rw [setRows_full]
+  · rw [flat_rows (fun t off => rowOf d (bytesOf st t.toNat) off), hflat', List.map_map]
+    apply List.map_congr_left
+    intro f hf
+    simp only [Function.comp, frameRow, hloc f (mem_rangeList a b c f hf).2]
+  · rw [flat_rows (fun t off => rowOf d (bytesOf st t.toNat) off), hflat']
+    simp [hlenR]
+
+example : ∃ ops, (setFrameSet ⟨dfsrD, ⟨0, dfsrD.chans.map Chan.size⟩, 0, lpD.rle, none⟩ storeD (some ⟨1, 5, 2⟩) none).2 = .ok ops :=
+  (setFrameSet_values_allchannels_partial dfsrD 2 lpD.rle storeD none (some ⟨1, 5, 2⟩) rfl rfl
+    (by intro c hc; simp [dfsrD] at hc; rcases hc with rfl | rfl | rfl <;> decide)
+    (by unfold IncTells; decide) (by decide) (by decide) (by decide)).imp (fun _ h => h.1)
+
+/-! ## Every file operation of a load lies inside a data record that holds a requested frame
+
+General: any DFSR (direct or indirect X), any record table, any slice, any channel list. Whenever `setFrameSet`
+succeeds, every seek goes to the position of a record in which `RLEType01.tellLrForFrame` locates a requested frame,
+and every read is a read of that record at `[ofs, ofs+len)` with `ofs + len ≤` the record's length (header included);
+skips do not touch the file. (Physical extents of the records are C05's subject; the oracle of `./check C06` checks the
+physical reads of the implementation against the generator's extents.) -/
+
+/-- the record at position `t` holds a frame requested by the slice `sl` -/
+def SelectedRecord (lp : LogPass) (sl : Option Sl) (t : Nat) : Prop :=
+  ∃ f ∈ rangeList (slOrAll sl (rle01Total lp.rle)).start (slOrAll sl (rle01Total lp.rle)).stop (slOrAll sl (rle01Total lp.rle)).step1,
+    ∃ seek off, rle01Tell lp.rle f = .ok (seek, off) ∧ seek.toNat = t
+
+theorem reads_inside_selected_records (lp : LogPass) (st : Store) (sl : Option Sl) (ch : Option (List Nat)) (ops : List Op)
+    (h : (setFrameSet lp st sl ch).2 = .ok ops) : ∀ op ∈ ops, OpOk st (SelectedRecord lp sl) op := by
+  unfold setFrameSet at h
+  simp only at h
+  split at h
+  · cases h
+  · split at h
+    · cases h
+    · rename_i fs hfs
+      split at h
+      · cases h; simp
+      · split at h
+        · cases h
+        · rename_i evs hevs
+          split at h
+          · cases h
+          · rename_i r hex
+            cases h
+            unfold genFrameSetEvents at hevs
+            split at hevs
+            · cases hevs
+            · rename_i m hm
+              have hseek : ∀ e ∈ evs, e.ty = .seekLr → SelectedRecord lp sl e.siz := by
+                intro e he hty
+                obtain ⟨en, hen, hs⟩ := genFrameSetEventsAux_seeks _ _ _ _ _ hevs e he hty
+                unfold retFrameSetMap at hm
+                split at hm
+                · cases hm
+                · rename_i m0 hm0
+                  cases hm
+                  have := retFrameSetMapAux_keys _ _ _ _ hm0 en (sortByKey_mem _ _ hen)
+                  rcases this with ⟨e', he', _⟩ | ⟨f, hf, off, ht⟩
+                  · simp at he'
+                  · exact ⟨f, hf, en.1, off, ht, hs.symm⟩
+              have hok := execEvs_ok lp.dfsr st (SelectedRecord lp sl) evs _ r hseek
+                ⟨by simp, by intro t bs h; simp at h⟩ hex
+              intro op hop
+              exact hok.1 op (by simpa using hop)
+
+example : ∀ op ∈ [Op.seek 50, .read 50 0 2, .skip 10, .read 50 12 4, .skip 4, .read 50 20 2, .seek 90, .read 90 0 2,
+    .read 90 2 4, .skip 4, .read 90 10 2], OpOk storeD (SelectedRecord lpD (some ⟨1, 5, 2⟩)) op :=
+  reads_inside_selected_records lpD storeD (some ⟨1, 5, 2⟩) (some [2]) _ setFrameSet_values_witness.2.2.2
+
+/-! ## Implied X — what is proved in general, and the exact gap
+
+Wanted (`implied_x_partial` / `implied_x_wrong_iff`): for every indirect-X log pass, slice and channel list the implied X
+of loaded frame `i` is `x0 + frame·spacing` whenever step = 1, or the pass is one record, or every record's first
+selected frame has offset 0; otherwise exactly the F7 rule.
+
+Proved, for every plan with an indirect word, **every channel list** and every slice of one record
+(`implied_x_events_partial`): the EXTRAPOLATE events of the record are exactly — one of `start` frames at frame `start`
+when `start > 0`, then one of `step` frames at every further selected frame, in order. Together with
+`extrapolate_rule_first` / `extrapolate_rule_later` (the interpreter's rule for one such event) this determines the
+implied X of a record up to the renumbering of frame numbers: `X[first] = Xrecord + start·spacing` when the record is
+the first loaded one (`frInt = 0`), `X[first] = X[previous loaded frame] + start·spacing` otherwise (the F7 rule), and
+`X[next] = X[previous] + step·spacing` inside the record; for `start = 0` no extrapolation happens at the first frame
+(the record's own X word is used).
+
+Gap: the composition with `renumber` (that the extrapolation at in-record frame `g_j` lands on loaded row `frInt + j`)
+and with `execEvs` over all map entries is proved only for direct X (`entries_exec_all`, where there are no
+extrapolations); for indirect X it is covered by `implied_x_witness_step1`, `implied_x_f7_witness`, the correspondence
+run (implied X vector compared on every load) and the oracle, which evaluates exactly the class predicate
+"indirect ∧ record ordinal > 0 ∧ first selected offset > 0" and the rule above on the implementation. -/
+
+theorem implied_x_events_partial (p : Plan) (a b c0 : Nat) (chans : List Nat) (evs : List Ev)
+    (hindr : p.indr > 0) (hab : a < b) (hne : sortDedup chans ≠ [])
+    (h : genEvents p a b c0 chans = .ok evs) :
+    exts evs = (if a > 0 then [(a, some a)] else [])
+      ++ (rangeList (a + (if c0 = 0 then 1 else c0)) b (if c0 = 0 then 1 else c0)).map
+          (fun g => ((if c0 = 0 then 1 else c0), some g)) := by
+  have hstep : 0 < (if c0 = 0 then 1 else c0) := by split <;> omega
+  unfold genEvents at h
+  simp only at h
+  generalize (if c0 = 0 then 1 else c0) = c at hstep h ⊢
+  split at h
+  · cases h
+  · rename_i cs hcs
+    have hcs' : cs = sortDedup chans := by
+      unfold checkChIdx at hcs
+      simp only at hcs
+      split at hcs
+      · split at hcs
+        · cases hcs
+        · cases hcs; rfl
+      · cases hcs; rfl
+    have hlen : cs.length > 0 := by
+      rw [hcs']; cases hs : sortDedup chans with
+      | nil => exact absurd hs hne
+      | cons x xs => simp
+    simp only [hlen, hab, and_self, if_true] at h
+    have hr := retFrameEvents_noExt p cs
+    cases hre : retFrameEvents p cs with
+    | mk pre r2 =>
+      obtain ⟨fevts, post⟩ := r2
+      rw [hre] at hr h
+      simp only at hr h
+      obtain ⟨hpre, hfev, hpost⟩ := hr
+      cases h
+      rw [exts_append, frameLoop_exts p fevts post _ b c hstep hfev hpost (merged_noExt p pre post c) _ _ _ hab (Nat.le_refl _)]
+      simp only [hindr, if_true]
+      congr 1
+      cases pre with
+      | some pr =>
+        have hpr := hpre pr rfl
+        simp only [hindr, if_true]
+        by_cases ha : a > 0
+        · simp [ha, exts, hpr]
+        · simp [ha, exts, hpr]
+      | none =>
+        simp only
+        by_cases ha : a > 0
+        · simp [ha, hindr, exts]
+        · simp [ha, exts]
+
+example : exts ((genEvents ⟨4, [4, 2]⟩ 1 6 2 [1]).toOption.getD []) = [(1, some 1), (2, some 3), (2, some 5)] := by decide
 
 end TD.C06
